@@ -891,6 +891,26 @@ pub fn check_emitted(st: &ResolvedSemanticState, key: &ItemPath, module: &Module
     let ix = index(&file);
     // ---- module documentation (C17)
     check_doc(&mut out, "module", &file.attrs, module.doc(), &[]);
+    // ---- the same from the source: the doc attributes written on the module, a type or an enum are the doc
+    // lines of its emitted counterpart (end to end, independent of what the semantic layer stored)
+    let src_doc = |a: &grammar::Attributes| -> Vec<String> {
+        a.0.iter().filter_map(|x| x.assign()).filter(|(k, _)| k.as_str() == "doc").filter_map(|(_, e)| e.string_literal().map(|s| s.to_string())).collect()
+    };
+    if doc_lines(&file.attrs) != src_doc(&gm.attributes) {
+        v(&mut out, &["C17"], format!("module: doc lines {:?}, written {:?}", doc_lines(&file.attrs), src_doc(&gm.attributes)));
+    }
+    for gd in &gm.definitions {
+        let n = gd.name.as_str();
+        let (attrs, emitted) = match &gd.inner {
+            grammar::ItemDefinitionInner::Type(t) => (&t.attributes, ix.structs.get(n).and_then(|v| v.first()).map(|s| doc_lines(&s.attrs))),
+            grammar::ItemDefinitionInner::Enum(e) => (&e.attributes, ix.enums.get(n).and_then(|v| v.first()).map(|s| doc_lines(&s.attrs))),
+        };
+        if let Some(em) = emitted {
+            if em != src_doc(attrs) {
+                v(&mut out, &["C17"], format!("{n}: doc lines {:?}, written {:?}", em, src_doc(attrs)));
+            }
+        }
+    }
     // ---- every definition of the module (C14) and its content
     let mut defined = BTreeSet::new();
     for d in module.definitions(st.type_registry()) {
